@@ -1597,7 +1597,9 @@ impl Context {
 
         // Function signature requires applying template substitution
         let base_signature = self.module.function_registry.get_function_signature(id);
-        let signature = base_signature.clone().apply_templates(template_args, self);
+        let signature = base_signature
+            .clone()
+            .apply_templates(template_args, self)?;
 
         // Return type can be retrieved from the signature
         self.scopes[new_scope_id].function_return_type = Some(signature.return_type.return_type);
@@ -1609,7 +1611,10 @@ impl Context {
                 template_args,
                 self,
             );
-            assert_eq!(signature.return_type.return_type, active_fn_return_layout);
+            assert_eq!(
+                Some(signature.return_type.return_type),
+                active_fn_return_layout
+            );
         }
 
         // Push the instantiation as a new function
@@ -1682,7 +1687,7 @@ impl Context {
         &mut self,
         id: ir::FunctionId,
         template_args: &[Located<ir::TypeOrConstant>],
-    ) -> ir::FunctionId {
+    ) -> Option<ir::FunctionId> {
         // Remove source locations from template arguments
         let template_args_no_loc = template_args
             .iter()
@@ -1695,7 +1700,7 @@ impl Context {
             .function_registry
             .find_instantiation(id, &template_args_no_loc)
         {
-            return id;
+            return Some(id);
         }
 
         // The name is the same as the base function
@@ -1707,7 +1712,7 @@ impl Context {
 
         // The signature is obtained by applying the template parameters
         let signature = self.module.function_registry.get_function_signature(id);
-        let signature = signature.clone().apply_templates(template_args, self);
+        let signature = signature.clone().apply_templates(template_args, self)?;
 
         // Register the new intrinsic instantiation as a function
         let new_id = self
@@ -1737,7 +1742,7 @@ impl Context {
                 },
             );
 
-        new_id
+        Some(new_id)
     }
 }
 
